@@ -68,6 +68,17 @@ var impls = map[string]func(string) string{
 	"mtree.line":      implMtreeLine,
 	"mtree.parse":     implMtreeParse,
 	"mtree.name":      implMtreeName,
+	"gcs.get":         implGcsGet,
+	"gcs.store":       implGcsStore,
+	"gcs.bulk":        implGcsBulk,
+	"gcs.has":         implGcsHas,
+	"gcs.prune":       implGcsPrune,
+	"gcsindex.ops":    implGcsIndexOps,
+	"so.srv":          implSoSrv,
+	"so.glob":         implSoGlob,
+	"so.locmatch":     implSoLocMatch,
+	"so.store":        implSoStore,
+	"so.index":        implSoIndex,
 }
 
 type replayFile struct {
